@@ -25,6 +25,9 @@ ASSUMPTIONS = [
     "the order in which hydrate meets the metadata files is permuted by wrapping glob (seeded); the model explores "
     "every order",
     "a corrupted entry itself is not constrained, only the entries that were not touched",
+    "thread-pool persistence (Hydration(pool=...), as insights.collect does): the canned commands of a multi-output "
+    "value answer with decreasing latency (15 ms steps), so a completion-order dependence shows as a re-ordering; "
+    "sampled, not every interleaving of the real threads",
     "bounds: exhaustive inside the listed TLC configurations; TLC -simulate archives (4 entries, 3 elements, "
     "4 lines, every corruption mode) beyond them",
 ]
@@ -53,7 +56,10 @@ def model_jobs(tier):
         # every hydration order of three entries under every corruption (model only)
         ("orders", "Serde", "Serde_orders.cfg", {}),
         ("sim", "SerdeMC", "SerdeMC_sim.cfg",
-         dict(simulate=60 if q else 1500, depth=16, tlc_seed=lib.seed() + 23)),
+         dict(simulate=60 if q else 1500, depth=40, tlc_seed=lib.seed() + 23)),
+        # RoundTrip can fail: results assembled in the pool's completion order violate it
+        ("neg-completion", "Serde", subst_cfg("Serde_orders.cfg", "negc.cfg", AssembleMode='"completion"', N="1",
+                                              MaxElems="2", PoolSet="{TRUE}", Modes="{}", MaxFaults="0"), {}),
     ]
     return jobs
 
@@ -65,17 +71,25 @@ def run_models(tier):
         name, mod, cfg, kw = job
         r = lib.run_tlc(mod, cfg, workers=4, tag="serde-" + name, timeout=1800, raw_cases=True,
                         coverage=(name in ("faults", "multi")), **kw)
+        if name.startswith("neg-"):
+            if r.violation != "RoundTrip":
+                raise lib.MachineryError("model %s: expected TLC to find a violation of RoundTrip for results "
+                                         "assembled in completion order, got violation=%s error=%s"
+                                         % (name, r.violation, r.error))
+            return name, None
         return name, lib.require_ok(r, "Serde model " + name)
 
     with concurrent.futures.ThreadPoolExecutor(max_workers=3) as ex:
         for name, r in ex.map(one, model_jobs(tier)):
+            if r is None:
+                continue
             raw.extend((name, i, line) for i, line in enumerate(r.cases))
             r.cases = []
             models.append(r)
     return models, raw
 
 
-REQUIRED_ACTIONS = ["Dehydrate", "Corrupt", "HydrateEntry", "Finish"]
+REQUIRED_ACTIONS = ["Dehydrate", "SerializeAny", "DehydrateEnd", "Corrupt", "HydrateEntry", "Finish"]
 
 
 def features(case):
@@ -85,7 +99,7 @@ def features(case):
 
 def nontrivial_key(case):
     return json.dumps([[(e["kind"], e["multi"], e["failed"], e["saveas"], [el["lines"] for el in e["elems"]])
-                        for e in case["entries"]], case["fault"]], sort_keys=True)
+                        for e in case["entries"]], case["fault"], case.get("pooled", False)], sort_keys=True)
 
 
 def run(prop, tier):
@@ -124,6 +138,7 @@ def run(prop, tier):
                      ("metadata documents with errors were written", stats.get("docs_with_errors", 0) > 0),
                      ("data files were written", stats.get("datafiles", 0) > 0),
                      ("archives were damaged", stats.get("faults", 0) > 0),
+                     ("archives were persisted with a thread pool", stats.get("pooled", 0) > 0),
                      ("entries were loaded into the fresh broker", stats.get("loaded", 0) > 0)):
         if not ok:
             raise lib.MachineryError("vacuity: never observed that %s (%s)" % (what, stats))
